@@ -5,7 +5,7 @@ import numpy as np
 from mc import scenario as S
 from ref.grid import Grid
 from ref import lp as R2
-from .common import viol, merge_cases, family, ImplRun, close
+from .common import short_exc, viol, merge_cases, family, ImplRun, close
 from .c01 import balance_violations
 
 PROPERTY = "C14"
@@ -259,5 +259,23 @@ def run_case(case):
                 if run.value > mono.value + 1e-6 * (1 + abs(mono.value)):
                     V.append(viol("c14.exceeds", "coupling only through storages with start = end level: split %.8f exceeds unsplit %.8f" % (run.value, mono.value), tags, ptags))
                 res["counters"]["bound_checked"] = 1
+    # the documented shortcut (cast data, split set-up, optimise with the default solver, extract) gives the same result
+    if case.get("cost", 0) <= 1:
+        try:
+            import eaopack as eao
+            from mc import impl
+            pf, tg, prices = impl.build(scn)
+            out = eao.io.optimize(pf, tg, prices, split_interval_size=scn["mode"].split(":", 1)[1])
+            sval = float(out["summary"].loc["value", "Values"]) if "value" in out["summary"].index else None
+            res["counters"]["shortcut_checked"] = 1
+            if sval is None:
+                V.append(viol("c14.shortcut", "the optimisation shortcut reports %s, the split run is optimal (%.8f)" % (out["summary"].to_dict(), run.value), tags, ptags + ["shortcut"]))
+            elif not close(sval, run.value, rel=1e-5, abs_=1e-5):
+                V.append(viol("c14.shortcut", "the optimisation shortcut with split_interval_size gives %.8f, the split run %.8f" % (sval, run.value), tags, ptags + ["shortcut"]))
+            elif len(out["dispatch"]) != g.T:
+                V.append(viol("c14.shortcut", "the dispatch of the shortcut has %d rows, the grid %d steps" % (len(out["dispatch"]), g.T), tags, ptags + ["shortcut"]))
+        except Exception as e:
+            from .common import exc_site
+            V.append(viol("c14.shortcut", "the optimisation shortcut with split_interval_size raises %s at %s; the split run is optimal" % (short_exc(e), exc_site()), tags, ptags + ["shortcut", "raises"]))
     res["nontrivial"] = bool(len(intervals) >= 2 and sum(float(np.abs(v).sum()) for v in tab.values()) > 1e-6)
     return res
